@@ -257,6 +257,19 @@ var families = []family{
 	{"long-url-parts", false, func(_ string, n int) ([]spec.Op, string) {
 		return everythingPolicy(), `<a href="http://` + rep("u", n/4) + `:p@` + rep("h.", n/4) + `example.org:80/` + rep("p/", n/4) + `?` + rep("q", n/4) + `#` + rep("f", n/4) + `">x</a><img src="` + rep("../", n/3) + `x.png"><blockquote cite="mailto:` + rep("a", n) + `@example.org">y</blockquote>`
 	}},
+	// one token of n x 160 bytes: 10 KiB .. 5 MiB (quick) / 20 MiB (thorough); size thresholds in buffers
+	{"giant-text-token", false, func(_ string, n int) ([]spec.Op, string) {
+		return []spec.Op{{K: spec.KUGC}}, "<p>" + rep(rep("x", 159)+" ", n) + "</p><b>tail</b>"
+	}},
+	{"giant-attribute-value", false, func(_ string, n int) ([]spec.Op, string) {
+		return everythingPolicy(), `<p title="` + rep(rep("t", 159)+" ", n) + `">x</p><b>tail</b>`
+	}},
+	{"giant-comment", false, func(_ string, n int) ([]spec.Op, string) {
+		return everythingPolicy(), "<!--" + rep(rep("c", 159)+" ", n) + "--><b>tail</b>"
+	}},
+	{"giant-rawtext", false, func(_ string, n int) ([]spec.Op, string) {
+		return everythingPolicy(), "<textarea>" + rep(rep("<b>", 53)+" ", n) + "</textarea><b>tail</b>"
+	}},
 	{"style-attribute-repeated", false, func(_ string, n int) ([]spec.Op, string) {
 		return stylePolicy("color", "font-family", "margin"), rep(`<span style="color: red; font-family: 'a b', c; margin: 1px 2px 3px 4px">x</span>`, n/8+1)
 	}},
